@@ -25,6 +25,7 @@ func ruleC18(prog *Program, rep *Report) {
 		rep.Errorf("C18 examined %d copying arms/methods (floor 8)", arms)
 	}
 	ruleKindParity(prog, rep)
+	ruleRecursionDropsOptions(prog, rep, "alt") // options given to a conversion apply at every depth
 	ruleTwins(prog, rep)
 	ruleCursorAdvance(prog, rep)                                    // two objects of one document must not be the same recycled map
 	ruleArgParity(prog, rep, "oj.Parser", "gen.Parser")             // Reuse with channel delivery hands out the same map for every document
